@@ -23,6 +23,7 @@ RULE = (
     "convolve_with}; leaves: integer lattice images (k<=3, both parities) and 3^d filters; all g in B_2, 12 (quick) / 48 "
     "(thorough) g in B_3. Non-trivial: >=2 operator nodes, root not identically zero, g != e; distinct by canonical tree string."
 )
+RULE += " High-order stratum: products of low-order leaves reaching k=5..8 (d=2) / 4..6 (d=3) on small boxes, reduced by chains of transpose / contract / multicontract / levi_civita_contract."
 RULE += " Single operators on narrow containers (uint8 / uint16 / int8 / int16, values 0..3) against the float32 image. Also: non-square images with per-axis flags, filter leaves with unequal sides from {1,3,5} (1 case in 3), object-level variant with the library's own action, strided root convolution in the equivariant regime."
 ASSUMPTIONS = ["reference action", "comparison relative 1e-4 of the node's magnitude (exact for integer nodes; float below a norm node)"]
 ANCHORS = [
@@ -39,7 +40,11 @@ OPS = ["add", "sub", "scale", "rscale", "mul", "transpose", "contract", "multico
 
 def cases(tier, seed):
     n = 300 if tier == "quick" else 14000
-    return [{"D": 2 if i % 3 else 3} for i in range(n)]
+    out = [{"D": 2 if i % 3 else 3} for i in range(n)]
+    # high-order stratum (appended, so the streams of the cases above do not move): a product of low-order leaves reaching
+    # k = 5..8 (d=2) / 4..6 (d=3), then a chain of transposes / contractions / Levi-Civita contractions down to k <= 2
+    out += [{"D": 2 if i % 2 else 3, "high": True} for i in range(36 if tier == "quick" else 1200)]
+    return out
 
 
 _log = probes.EventLog()
@@ -128,6 +133,56 @@ class Gen:
         raise ValueError(op)
 
 
+def gen_high(g_, rng, D):
+    """High intermediate orders: (x) of leaves with k in 1..3 up to K, then reductions until k <= 2 (each node typed)."""
+    K = int(rng.integers(5, 9)) if D == 2 else int(rng.integers(4, 7))
+    parts, left = [], K
+    while left > 0:
+        k1 = int(min(left, rng.integers(1, 4)))
+        parts.append(k1)
+        left -= k1
+    node = None
+    for k1 in parts:
+        lf = g_.leaf(k1, int(rng.integers(0, 2)))
+        if node is None:
+            node = lf
+        else:
+            a, b = (node, lf) if rng.integers(0, 2) else (lf, node)
+            node = ("mul", a, b, a[-2] + b[-2], (a[-1] + b[-1]) % 2)
+            g_.nops += 1
+    steps = 0
+    while node[-2] > 2 or steps < 2:
+        k, p = node[-2], node[-1]
+        prods = []
+        if k >= 2 and steps < 6:
+            prods += ["transpose"]
+        if k >= 2:
+            prods += ["contract", "contract"]
+        if k >= 4:
+            prods += ["multicontract"]
+        if k >= max(D - 1, 1):
+            prods += ["levi", "levi"] if (D == 3 or steps < 4) else []
+        if not prods:
+            break
+        op = prods[int(rng.integers(len(prods)))]
+        if op == "transpose":
+            node = (op, node, tuple(int(v) for v in rng.permutation(k)), k, p)
+        elif op == "contract":
+            i, j = (int(v) for v in rng.choice(k, size=2, replace=False))
+            node = (op, node, (i, j), k - 2, p)
+        elif op == "multicontract":
+            idx = [int(v) for v in rng.permutation(k)[:4]]
+            node = (op, node, ((idx[0], idx[1]), (idx[2], idx[3])), k - 4, p)
+        else:
+            idx = tuple(int(v) for v in rng.choice(k, size=D - 1, replace=False))
+            node = (op, node, idx, k - (D - 1) + 1, (p + 1) % 2)
+        g_.nops += 1
+        steps += 1
+        if steps > 14:
+            break
+    return node
+
+
 def tree_str(t):
     if t[0] == "leaf":
         return f"L{t[1]}({t[2]},{t[3]})"
@@ -189,7 +244,12 @@ def run(case, ctx):
     torus = tuple(bool(v) for v in rng.integers(0, 2, size=D)) if rng.integers(0, 2) else (bool(rng.integers(0, 2)),) * D
     g_ = Gen(rng, D, int(rng.integers(2, (5 if ctx["tier"] == "quick" else 7) + 1)))
     root_k = int(rng.integers(0, 3))
-    tree = g_.gen(root_k, int(rng.integers(0, 2)), g_.max_depth)
+    if case.get("high"):
+        sp = (2,) * D if rng.integers(0, 2) else tuple(int(v) for v in rng.integers(1, 4, size=D))
+        tree = gen_high(g_, rng, D)
+        root_k = tree[-2]
+    else:
+        tree = g_.gen(root_k, int(rng.integers(0, 2)), g_.max_depth)
     ops = []
     count_ops(tree, ops)
     ts = tree_str(tree)
@@ -333,7 +393,7 @@ def run(case, ctx):
                 break
     nontrivial = len(ops) >= 2 and bool(np.any(np.asarray(root.data) != 0))
     return result(ts, viols, nontrivial, evals=evals, obs={"tree_evaluations": evals, "nodes_compared": len(base_trace) * max(1, evals - 4)},
-                  hist={"D": D, "ops": ops, "n_ops": min(len(ops), 12), "root_k": root_k, "shape": "cube" if len(set(sp)) == 1 else "non-square", "flags": "uniform" if len(set(torus)) == 1 else "mixed"}, sample={"tree": ts, "leaves": g_.leaves[:6]})
+                  hist={"D": D, "ops": ops, "n_ops": min(len(ops), 12), "root_k": root_k, "max_k": max([t[1][0] for t in base_trace] + [0]), "shape": "cube" if len(set(sp)) == 1 else "non-square", "flags": "uniform" if len(set(torus)) == 1 else "mixed"}, sample={"tree": ts, "leaves": g_.leaves[:6]})
 
 
 def finalize(tier, results, obs, hist, metas):
